@@ -143,7 +143,9 @@ func (p *xprog) step() {
 	rng := p.rng
 	b := p.b
 	w := xwidths[rng.Intn(len(xwidths))]
-	switch rng.Intn(16) {
+	switch rng.Intn(17) {
+	case 16: // wide integers: a constant wider than 64 bits, shifted and truncated back
+		p.wideStep()
 	case 0, 1, 2: // wrapping arithmetic and logic
 		x, y := p.pickInt(w), p.pickInt(w)
 		var r uint64
@@ -467,6 +469,85 @@ func (p *xprog) step() {
 			p.add(xval{kind: "int", w: 32, u: maskw(5+n*step.u, 32), v: acc2})
 		}
 	}
+}
+
+// wideStep builds a constant of a width above 64 bits from its decimal (or
+// hexadecimal) spelling, combines it with a second one and brings 64 bits of
+// the result back into the evaluated domain.
+func (p *xprog) wideStep() {
+	rng := p.rng
+	w := []uint{65, 100, 128, 256}[rng.Intn(4)]
+	t := types.NewInt(uint64(w))
+	mod := new(big.Int).Lsh(big.NewInt(1), w)
+	wide := func() *big.Int {
+		v := new(big.Int)
+		switch rng.Intn(5) {
+		case 0: // a power of two
+			v.Lsh(big.NewInt(1), uint(rng.Intn(int(w))))
+		case 1: // a run of ones
+			v.Lsh(big.NewInt(1), uint(1+rng.Intn(int(w))))
+			v.Sub(v, big.NewInt(1))
+			v.Lsh(v, uint(rng.Intn(8)))
+		case 2: // repeated byte
+			by := big.NewInt(int64(1 + rng.Intn(255)))
+			for i := uint(0); i < w; i += 8 {
+				v.Lsh(v, 8)
+				v.Or(v, by)
+			}
+		default:
+			for i := uint(0); i < w; i += 64 {
+				v.Lsh(v, 64)
+				v.Or(v, new(big.Int).SetUint64(rng.Uint64()))
+			}
+		}
+		return v.Mod(v, mod)
+	}
+	mk := func(v *big.Int) (value.Value, bool) {
+		spell := v.String()
+		switch rng.Intn(3) {
+		case 0:
+			spell = "u0x" + strings.ToUpper(v.Text(16))
+		case 1:
+			if v.Bit(int(w)-1) == 1 { // signed spelling of the same bits
+				spell = new(big.Int).Sub(v, mod).String()
+			}
+		}
+		c, err := constant.NewIntFromString(t, spell)
+		if err != nil {
+			return nil, false
+		}
+		return c, true
+	}
+	a, bb := wide(), wide()
+	ca, ok1 := mk(a)
+	cb, ok2 := mk(bb)
+	if !ok1 || !ok2 {
+		p.ops["wide/constructor-error"]++
+		return
+	}
+	var r *big.Int
+	var v value.Value
+	switch rng.Intn(3) {
+	case 0:
+		r, v = new(big.Int).Add(a, bb), p.b.NewAdd(ca, cb)
+	case 1:
+		r, v = new(big.Int).Xor(a, bb), p.b.NewXor(ca, cb)
+	default:
+		r, v = new(big.Int).And(a, bb), p.b.NewAnd(ca, cb)
+	}
+	r.Mod(r, mod)
+	p.named(v)
+	sh := uint(rng.Intn(int(w) - 63))
+	shc, err := constant.NewIntFromString(t, fmt.Sprint(sh))
+	if err != nil {
+		return
+	}
+	sv := p.named(p.b.NewLShr(v, shc))
+	tv := p.named(p.b.NewTrunc(sv, types.I64))
+	r.Rsh(r, sh)
+	r.And(r, new(big.Int).SetUint64(^uint64(0)))
+	p.ops["wide-int"]++
+	p.add(xval{kind: "int", w: 64, u: r.Uint64(), v: tv})
 }
 
 // finish prints every selected value and returns a checksum.
